@@ -11,6 +11,7 @@ with a second independent implementation in Python (lib/vf/layout.py).
 -/
 import Cacache.Lemmas.ReadBack
 import Cacache.Lemmas.Index
+import Cacache.Lemmas.CodecLaws
 
 namespace Cacache.C17
 open Prog
@@ -70,15 +71,26 @@ theorem areas_disjoint (q : Path) :
 /-- **Decoding inverts encoding** at the level of a bucket file: a bucket made of framed records
 (by this implementation or any other following the format) decodes to exactly those records, in
 order — given the record-line round trip (`Codec.Laws`). -/
-theorem decode_encode_bucket (L : (codec cfg).Laws) (rs : List Rec) :
-    (codec cfg).entriesT ((codec cfg).appendAll [] rs) = rs := by
-  rw [L.entriesT_appendAll]
+theorem decode_encode_bucket {W : Rec → Prop} (L : (codec cfg).Laws W) (rs : List Rec)
+    (hW : ∀ r ∈ rs, W r) : (codec cfg).entriesT ((codec cfg).appendAll [] rs) = rs := by
+  rw [L.entriesT_appendAll _ _ hW]
   have : (codec cfg).entriesT [] = [] := by
     have := L.settled_nil
     unfold Codec.Settled at this
     rw [← this]
     simp [Codec.entries, lines, splitNL, linesOfSegs, lineU]
   rw [this]; rfl
+
+/-- **Decoding inverts encoding, proved for the real format**: one record line
+(`hex(sha256(json)) \t json`, serde_json field order) decodes to the record it was made from, for
+every well-formed record and every hash function … -/
+theorem decode_encode_line (r : Rec) (h : r.WF) : Rec.decLine cfg.H (Rec.encLine cfg.H r) = some r :=
+  Rec.dec_enc cfg.H r h
+
+/-- … and a whole bucket of framed records decodes to exactly those records, in order. -/
+theorem decode_encode_bucket_cacache (rs : List Rec) (hW : ∀ r ∈ rs, r.WF) :
+    (codec cfg).entriesT ((codec cfg).appendAll [] rs) = rs :=
+  decode_encode_bucket cfg (codec_laws cfg) rs hW
 
 /-- A tombstone is a record whose integrity is `null`. -/
 theorem tombstone_layout (key : Bytes) (tm : Nat) :
